@@ -6,6 +6,26 @@ import os
 ROOT = os.path.dirname(os.path.dirname(os.path.abspath(__file__)))
 
 CHECKS = {
+    "C08": dict(
+        cat="model_checking", ref="DESIGN.md 5/C08",
+        technique="TLA+ MatchRef oracle (P) + transcription of createKey/add/find/checkId (S, MsgMatch.tla); TLC generates definition sets "
+                  "in add order and derived telegrams, the harness replays them on a real MessageMap, TLC judges every find result and "
+                  "evaluates S => P on the same domain",
+        text="All sets of <=2 (thorough <=3) definitions over ID bytes {00,01}, ID length 0..6 (7), src any/10, dst any/08/FE/10, "
+             "r/w/u/uw, one chained, one conditional, structured + seeded random triples; telegrams by keep/truncate/extend/mutate; "
+             "2 destination modes x 8 direction sets x onlyAvailable.",
+        note="Trusted: TLC evaluation, harness logging, CSV rendering (cross-checked by readback); small-scope byte alphabet; "
+             "known finding C08:longer-chained-id-shadowed on the pinned tree."),
+    "C09": dict(
+        cat="model_checking", ref="DESIGN.md 5/C09",
+        technique="TLA+ Build/Parts/Join/DecodeText/MustReject + part-arrival monitor (P); ChainedMessage cache state machine (S) "
+                  "model-checked against P incl. 3 seeded defects; TLC-generated shapes x inputs x answers x arrival orders replayed on "
+                  "real Message/ChainedMessage/MessageMap objects with a virtual clock, traces judged by TLC",
+        text="read/write, master/slave/default parts, defaults, templates, ZZ lists, no-ZZ templates, boundary lengths 23-26, chained IDs "
+             "with explicit lengths (read chains also with omitted lengths); all arrival orders x gaps {0,1,16,50} + window edges, seen "
+             "and active flows.",
+        note="Trusted: TLC, harness logging, CSV/input rendering (readback-checked). UCH/HEX/IGN only. MAX_POS=24 and 15 s x parts taken "
+             "from code constants. The meaning of an omitted length in a chained write is deliberately outside P."),
     "C10": dict(
         cat="model_checking", ref="DESIGN.md 5/C10",
         technique="TLA+ ownership fold Own (Layout.tla; a set of admissible maps, two where the text leaves the sharing of a byte open) "
